@@ -340,6 +340,10 @@ func c08Cut(ctx *core.Ctx, c c08Case) {
 	if c.Cut > len(all) {
 		c.Cut = len(all)
 	}
+	if gaveUp("c08cut|" + cv.Name) {
+		ctx.Add("cases_skipped_after_an_established_hang", 1)
+		return
+	}
 	ctx.Eval(fmt.Sprintf("cut|%d|%d|%d|%s|%s", c.CSeed, c.Conv, c.Cut, c.Failure, c.Seg), c.Cut >= len(cv.Steps[0].B))
 	kind := cv.Mode.kind()
 	if cv.Auth {
@@ -365,6 +369,9 @@ func c08Cut(ctx *core.Ctx, c c08Case) {
 	fin := rig.Finish()
 	ends := waitDataEnds(rig.Log)
 	if isWatchdog(err) || !fin || !ends {
+		// the remaining cuts of this conversation would each cost the same watchdog periods; the
+		// goroutine table at the end of the run decides (goroutine-left-behind)
+		giveUp("c08cut|" + cv.Name)
 		ctx.Inconclusive("C08 watchdog " + c08Desc(c))
 		return
 	}
